@@ -120,6 +120,8 @@ def reproducibility(ctx, env):
         try:
             np.random.seed(12345)
             random.seed(1)
+            np.random.normal()  # leaves a cached second Gaussian in the legacy global state: part of the state a caller can observe
+            random.gauss(0, 1)
             g0 = global_state()
             a = table_bytes(run_path(env, kind, kw, seed=777))
             if global_state() != g0:
@@ -145,6 +147,7 @@ def reproducibility(ctx, env):
         with warnings.catch_warnings():
             warnings.simplefilter("ignore")
             np.random.seed(5)
+            np.random.normal()  # cached Gaussian present
             g0 = global_state()
             a = table_bytes(env["prior"].sample(size=12, generate_linear=gl, rng=np.random.default_rng(31)))
             if global_state() != g0:
